@@ -254,6 +254,41 @@ impl Prop for C17 {
             check_incremental(scn, cuts, st)?;
         }
         if scn.reuse_after_reset {
+            // reuse across connections: an extractor abandoned in the middle of ANOTHER connection's start (any
+            // prefix of it, fed in any chunks), after reset(), behaves like a fresh one on this stream for every chunking
+            {
+                let mut r = Rng::new(crate::rng::mix64(scn.stream.len() as u64 ^ 0xC17E) ^ scn.stream.iter().take(64).fold(0u64, |h, b| crate::rng::mix64(h ^ *b as u64)));
+                let o = Opts { request: true, hostile: Hostile::None, fancy_headers: r.chance(1, 3), odd_order: r.chance(1, 3), self_ref: false, continuation: false, big_frame: None, announce_max_frame: false, huge_block: 0 };
+                let (other, _) = http2::connection_start(&mut r, &o);
+                for cuts in scn.chunkings.iter().take(4) {
+                    let stop = r.usize_below(other.len() + 1);
+                    let mut used = huginn_net_http::Http2FingerprintExtractor::new();
+                    let mut at = 0;
+                    while at < stop {
+                        let n = (1 + r.usize_below(40)).min(stop - at);
+                        let _ = used.add_bytes(&other[at..at + n]);
+                        at += n;
+                    }
+                    used.reset();
+                    let mut fresh = huginn_net_http::Http2FingerprintExtractor::new();
+                    let mut a = 0;
+                    let mut ends: Vec<usize> = cuts.clone();
+                    ends.push(scn.stream.len());
+                    for (k, e) in ends.iter().enumerate() {
+                        if *e <= a || *e > scn.stream.len() {
+                            continue;
+                        }
+                        let x = used.add_bytes(&scn.stream[a..*e]).ok().flatten().map(|f| fp_text(&f));
+                        let y = fresh.add_bytes(&scn.stream[a..*e]).ok().flatten().map(|f| fp_text(&f));
+                        if x != y {
+                            return Err(Violation::new("reset-not-fresh", "extractor-after-abandoned-connection", format!("extractor abandoned {} bytes into another connection, reset(), then this stream: chunk {} (bytes {}..{}) gives {:?}, a fresh extractor gives {:?}", stop, k, a, e, x, y)));
+                        }
+                        a = *e;
+                    }
+                    st.evals += 1;
+                    st.probe("reset_after_abandoned_connection_checked");
+                }
+            }
             // C01-style reuse: an extractor that has seen this stream, after reset(), behaves like a fresh one
             let mut used = huginn_net_http::Http2FingerprintExtractor::new();
             let _ = used.add_bytes(&scn.stream);
